@@ -259,6 +259,66 @@ def loopBodyOK (t : Ty) : Bool :=
   | .unknown | .never | .null => true
   | _ => false
 
+/-- a list element of type `t` fits a list whose element type so far is `lt` (`any`: none yet) -/
+def elemOK (t lt : Ty) : Bool := lt.kind == .any || (typeCheck false t lt).isNone
+
+/-- what can be called -/
+inductive Callee where
+  | fn (ps : List (String × Ty)) (ret : Ty)
+  | var (ps : List Ty) (rest ret : Ty)
+  /-- the callee never yields a value (`unknown`, `never`) -/
+  | div
+  | bad
+
+def callee : Ty → Callee
+  | .fn ps ret => .fn ps ret
+  | .fnvar ps rest ret => .var ps rest ret
+  | .unknown => .div
+  | .never => .div
+  | _ => .bad
+
+/-- type of `b[i]` from the types of `b` and `i` and the key if `i` is a string literal -/
+def indexRule (tb ti : Ty) (lit : Option String) : Option Ty :=
+  match tb with
+  | .anyobj => if ti.kind == .str then some .any else none
+  | .obj fields =>
+    if ti.kind == .str then
+      match lit with
+      | some key => lookupTy key fields
+      | none => some .any
+    else none
+  | .list inner => if ti.kind == .int then some inner else none
+  | .str => if ti.kind == .int then some .str else none
+  | .unknown => some .unknown
+  | .never => some .never
+  | _ => none
+
+/-- the diagnostic when `indexRule` has no answer -/
+def indexErr (tb ti : Ty) : Err :=
+  match tb with
+  | .anyobj => ⟨.indexType, .indexMismatch⟩
+  | .obj _ => if ti.kind == .str then ⟨.unknownField, .unknownMember⟩ else ⟨.indexType, .indexMismatch⟩
+  | .list _ => ⟨.indexType, .indexMismatch⟩
+  | .str => ⟨.indexType, .indexMismatch⟩
+  | _ => ⟨.notIndexable, .indexMismatch⟩
+
+/-- type of `b.name`, `b->name`, `b~>name` -/
+def memberRule (tb : Ty) (name : String) (op : MemberOp) : Option Ty :=
+  match tb.kind with
+  | .unknown | .never => some tb
+  | .any => none
+  | _ =>
+    match op with
+    | .dot => memberTy tb name
+    | .arrow => if tb.kind == .anyobj then some (.opt .any) else none
+    | .tildeArrow => if tb.kind == .anyobj then some .any else none
+
+/-- constant-ness of a block expression: no statements, constant value -/
+def blockCst (ss : PStmts) (c : Bool) : Bool :=
+  match ss with
+  | .nil => c
+  | _ => false
+
 def tcErr (allowFn : Bool) (got exp : Ty) (rule : Rule) : List Err :=
   match typeCheck allowFn got exp with
   | some m => [⟨m, rule⟩]
@@ -345,23 +405,24 @@ structure StmtsRes where
   tys : List Ty := []
   vars : List (String × Ty)
 
+/-- annotation / implicit-`any` rule of `let`: diagnostics and the type of the variable -/
+def letVarTy (ann : Option PTy) (t : Ty) : List Err × Ty :=
+  match ann with
+  | some a =>
+    match typeCheck (!t.hasAny) t (convertType true a).2 with
+    | some m => ((convertType true a).1 ++ [⟨m, .annotationMismatch⟩], t)
+    | none => ((convertType true a).1, (convertType true a).2)
+  | none => if t.hasAny then ([⟨.implicitAny, .implicitAny⟩], .unknown) else ([], t)
+
 /-- `Analyzer.letStatement` after the initialiser has been analysed (`e`). -/
 def letRule (Γ : Ctx) (name : String) (ann : Option PTy) (e : Res) (isGlobal : Bool) : StmtRes :=
   let nonConst := isGlobal && !e.cst
   let e1 : List Err := if nonConst then [⟨.nonConstantGlobal, .nonConstantGlobal⟩] else []
-  let hasAny := e.ty.hasAny
-  let (e2, varTy, force) : List Err × Ty × Bool :=
-    match ann with
-    | some a =>
-      let c := convertType true a
-      match typeCheck (!hasAny) e.ty c.2 with
-      | some m => (c.1 ++ [⟨m, .annotationMismatch⟩], e.ty, false)
-      | none => (c.1, c.2, false)
-    | none => if hasAny then ([⟨.implicitAny, .implicitAny⟩], e.ty, true) else ([], e.ty, false)
-  let varTy := if nonConst || force then .unknown else varTy
+  let v := letVarTy ann e.ty
+  let varTy : Ty := if nonConst then .unknown else v.2
   let e3 : List Err :=
     if isGlobal && (lookupTy name Γ.vars).isSome then [⟨.duplicateGlobal, .duplicateDefinition⟩] else []
-  { errs := e.errs ++ e1 ++ e2 ++ e3, ty := .null, ex := e.ex, tys := varTy :: e.tys, vars := (name, varTy) :: Γ.vars }
+  { errs := e.errs ++ e1 ++ v.1 ++ e3, ty := .null, ex := e.ex, tys := varTy :: e.tys, vars := (name, varTy) :: Γ.vars }
 
 def loopBodyErr (t : Ty) : List Err :=
   if loopBodyOK t then [] else [⟨.loopBody, .loopBody⟩]
@@ -430,67 +491,49 @@ def checkExpr (Γ : Ctx) (strict : Bool) : PExpr → Res
     wrap strict { errs := a.errs ++ b.errs ++ e1 ++ e2, ty := t, ex := a.ex || b.ex, cst := false, tys := t :: (a.tys ++ b.tys) }
   | .call base args =>
     let b := checkExpr Γ true base
-    match b.ty with
+    match callee b.ty with
     | .fn ps ret =>
       if args.length != ps.length then
         wrap strict { errs := b.errs ++ [⟨.arity, .arity⟩], ty := ret, ex := b.ex, cst := false, tys := ret :: b.tys }
       else
         let r := checkArgs Γ (ps.map (·.2)) Option.none args
         wrap strict { errs := b.errs ++ r.errs, ty := ret, ex := b.ex || r.ex, cst := false, tys := ret :: (b.tys ++ r.tys) }
-    | .fnvar ps rest ret =>
+    | .var ps rest ret =>
       if ps.length != 0 && args.length < ps.length then
         wrap strict { errs := b.errs ++ [⟨.arity, .arity⟩], ty := ret, ex := b.ex, cst := false, tys := ret :: b.tys }
       else
         let r := checkArgs Γ ps (some rest) args
         wrap strict { errs := b.errs ++ r.errs, ty := ret, ex := b.ex || r.ex, cst := false, tys := ret :: (b.tys ++ r.tys) }
-    | .unknown | .never =>
+    | .div =>
       wrap strict { errs := b.errs, ty := .unknown, ex := b.ex, cst := false, tys := .unknown :: b.tys }
-    | _ =>
+    | .bad =>
       wrap strict { errs := b.errs ++ [⟨.notCallable, .notCallable⟩], ty := .unknown, ex := b.ex, cst := false,
                     tys := .unknown :: b.tys }
   | .index base idx =>
     let b := checkExpr Γ true base
     let i := checkExpr Γ true idx
-    let errs := b.errs ++ i.errs
-    let mk (own : List Err) (t : Ty) : Res :=
-      wrap strict { errs := errs ++ own, ty := t, ex := b.ex || i.ex, cst := b.cst, tys := t :: (b.tys ++ i.tys) }
-    match b.ty with
-    | .anyobj => if i.ty.kind != .str then mk [⟨.indexType, .indexMismatch⟩] .unknown else mk [] .any
-    | .obj fields =>
-      if i.ty.kind != .str then mk [⟨.indexType, .indexMismatch⟩] .unknown
-      else
-        match isStrLit idx with
-        | some key =>
-          match lookupTy key fields with
-          | some t => mk [] t
-          | none => mk [⟨.unknownField, .unknownMember⟩] .unknown
-        | none => mk [] .any
-    | .list inner => if i.ty.kind != .int then mk [⟨.indexType, .indexMismatch⟩] .unknown else mk [] inner
-    | .str => if i.ty.kind != .int then mk [⟨.indexType, .indexMismatch⟩] .unknown else mk [] .str
-    | .unknown => mk [] .unknown
-    | .never => mk [] .never
-    | _ => mk [⟨.notIndexable, .indexMismatch⟩] .unknown
+    match indexRule b.ty i.ty (isStrLit idx) with
+    | some t =>
+      wrap strict { errs := b.errs ++ i.errs, ty := t, ex := b.ex || i.ex, cst := b.cst, tys := t :: (b.tys ++ i.tys) }
+    | Option.none =>
+      wrap strict { errs := b.errs ++ i.errs ++ [indexErr b.ty i.ty], ty := .unknown, ex := b.ex || i.ex, cst := b.cst,
+                    tys := .unknown :: (b.tys ++ i.tys) }
   | .member base name op =>
     let b := checkExpr Γ false base
-    match b.ty.kind with
-    | .unknown | .never =>
-      wrap strict { errs := b.errs, ty := b.ty, ex := b.ex, cst := b.cst, tys := b.ty :: b.tys }
-    | .any =>
-      wrap strict { errs := b.errs ++ [⟨.implicitAny, .implicitAny⟩], ty := .unknown, ex := b.ex, cst := true,
-                    tys := [.unknown, .unknown] }
-    | _ =>
-      match op with
-      | .dot =>
-        match memberTy b.ty name with
-        | some t => wrap strict { errs := b.errs, ty := t, ex := b.ex, cst := b.cst, tys := t :: b.tys }
-        | none => wrap strict { errs := b.errs ++ [⟨.unknownMember, .unknownMember⟩], ty := .unknown, ex := b.ex, cst := b.cst,
+    match memberRule b.ty name op with
+    | some t => wrap strict { errs := b.errs, ty := t, ex := b.ex, cst := b.cst, tys := t :: b.tys }
+    | Option.none =>
+      if b.ty.kind == .any then
+        wrap strict { errs := b.errs ++ [⟨.implicitAny, .implicitAny⟩], ty := .unknown, ex := b.ex, cst := true,
+                      tys := [.unknown, .unknown] }
+      else
+        match op with
+        | .dot => wrap strict { errs := b.errs ++ [⟨.unknownMember, .unknownMember⟩], ty := .unknown, ex := b.ex, cst := b.cst,
                                 tys := .unknown :: b.tys }
-      | .arrow =>
-        let own : List Err := if b.ty.kind != .anyobj then [⟨.memberOperator, .unknownMember⟩] else []
-        wrap strict { errs := b.errs ++ own, ty := .opt .any, ex := b.ex, cst := b.cst, tys := .opt .any :: b.tys }
-      | .tildeArrow =>
-        let own : List Err := if b.ty.kind != .anyobj then [⟨.memberOperator, .unknownMember⟩] else []
-        wrap strict { errs := b.errs ++ own, ty := .any, ex := b.ex, cst := b.cst, tys := .any :: b.tys }
+        | .arrow => wrap strict { errs := b.errs ++ [⟨.memberOperator, .unknownMember⟩], ty := .opt .any, ex := b.ex,
+                                  cst := b.cst, tys := .opt .any :: b.tys }
+        | .tildeArrow => wrap strict { errs := b.errs ++ [⟨.memberOperator, .unknownMember⟩], ty := .any, ex := b.ex,
+                                       cst := b.cst, tys := .any :: b.tys }
   | .cast e t =>
     let b := checkExpr Γ false e
     let c := convertType true t
@@ -538,9 +581,8 @@ def checkElems (Γ : Ctx) (lt : Ty) : PExprs → ElemsRes
   | .nil => { lt := lt }
   | .cons x xs =>
     let r := checkExpr Γ true x
-    let bad := (typeCheck false r.ty lt).isSome && lt.kind != .any
-    let lt' : Ty := if bad then .unknown else if lt.kind == .any then r.ty else lt
-    let own : List Err := if bad then tcErr false r.ty lt .elementMismatch else []
+    let lt' : Ty := if elemOK r.ty lt then (if lt.kind == .any then r.ty else lt) else .unknown
+    let own : List Err := if elemOK r.ty lt then [] else tcErr false r.ty lt .elementMismatch
     let rr := checkElems Γ lt' xs
     { errs := r.errs ++ own ++ rr.errs, lt := rr.lt, ex := r.ex || rr.ex, cst := r.cst && rr.cst, tys := r.tys ++ rr.tys }
 /-- `objectLiteralExpression` -/
@@ -651,7 +693,7 @@ def checkBlock (Γ : Ctx) : PBlock → Res
     let t := checkExpr { Γ with vars := r.vars } true e
     let ty : Ty := blockTy r.never t.ty
     { errs := r.errs ++ t.errs, ty := ty, ex := r.ex || t.ex,
-      cst := (match ss with | .nil => t.cst | _ => false), tys := ty :: (r.tys ++ t.tys) }
+      cst := blockCst ss t.cst, tys := ty :: (r.tys ++ t.tys) }
   | .mkNoTail ss =>
     let r := checkStmts Γ ss
     let ty : Ty := blockTy r.never .null
@@ -698,6 +740,13 @@ def checkGlobals (fns : List (String × Ty)) (vars : List (String × Ty)) : List
     let rr := checkGlobals fns r.vars rest
     { errs := r.errs ++ rr.errs, vars := rr.vars, tys := r.tys ++ rr.tys }
 
+/-- `setCurrentFunc`: `return` statements are checked against the return type of the first
+function registered under the name -/
+def curRet (fns : List (String × Ty)) (name : String) : Ty :=
+  match lookupTy name fns with
+  | some (.fn _ r) => r
+  | _ => .unknown
+
 /-- `functionDefinition` -/
 def checkFn (fns : List (String × Ty)) (globals : List (String × Ty)) (f : PFn) : List Err × List Ty :=
   let rt := convertType true f.ret
@@ -709,12 +758,7 @@ def checkFn (fns : List (String × Ty)) (globals : List (String × Ty)) (f : PFn
   let badMainRet := isMain && rt.2.kind != .unknown && rt.2.kind != .null
   let e2 : List Err := if badMainRet then [⟨.mainReturn, .mainShape⟩] else []
   let declared : Ty := if badMainRet then .unknown else rt.2
-  -- `setCurrentFunc`: the first function of that name
-  let cur : Option Ty :=
-    match lookupTy f.name fns with
-    | some (.fn _ r) => some r
-    | _ => some .unknown
-  let Γ : Ctx := { vars := paramScope [] ps.2 ++ globals, fns := fns, ret := cur, inLoop := false }
+  let Γ : Ctx := { vars := paramScope [] ps.2 ++ globals, fns := fns, ret := some (curRet fns f.name), inLoop := false }
   let b := checkBlock Γ f.body
   (rt.1 ++ e1 ++ e2 ++ ps.1 ++ b.errs ++ tcErr true b.ty declared .returnMismatch, declared :: b.tys)
 
